@@ -419,7 +419,7 @@ pub fn run(tier: Tier) -> i32 {
         }
     }
     rep.guard("successes and every failure kind occur", ["success: value", "success: unquoted", "success: ast", "failure: bad expression", "failure: bad JSON", "failure: runtime error", "failure: unreadable input file", "failure: unreadable expression file", "failure: input is not UTF-8"].iter().all(|k| st.outcomes.get(*k).cloned().unwrap_or(0) > 0));
-    rep.rule = "the full product expressions x input texts x expression source {argument, -e file, -e missing file} x input source {stdin, -f file, -f missing file, -f directory} x -u x --ast, one jp process each (the unchanged jmespath-cli/src/main.rs built against /repo/jmespath); oracle = the library called in-process on the same bytes: success => exit 0 and stdout = pretty JSON + LF (raw string + LF under -u), --ast => {:#?} of the tree without reading input, any failure => non-zero exit, empty stdout, non-empty stderr, never a panic. non-trivial = a success case whose stdout was compared byte for byte".into();
+    rep.rule = "the full product expressions x input texts x expression source {argument, -e file, -e missing file} x input source {stdin, -f file, -f missing file, -f directory} x -u x --ast, one jp process each (the unchanged jmespath-cli/src/main.rs built against /repo/jmespath); oracle = the library called in-process on the same bytes: success => exit 0 and stdout = pretty JSON + LF (raw string + LF under -u), --ast => {:#?} of the tree without reading input, any failure => non-zero exit, empty stdout, non-empty stderr, never a panic. non-trivial = a success case whose stdout was compared byte for byte Plus expressions ending / starting in Unicode white space that JMESPath does not skip, strings ending in LF under -u, and 13 documents of 150-300 KB filled with 2-, 3- and 4-byte characters at every alignment through stdin, -f file, -f /dev/stdin and -f FIFO. A jp still running after the horizon (10 s) is killed and reported as C18/hang.".into();
     rep.bounds = json!({"expressions": expressions(tier).len(), "inputs": inputs(tier).len(), "process_runs": cases.len()});
     rep.assumptions = vec!["non-UTF-8 argv and write failures on stdout/stderr are outside the stated quantifier".into()];
     rep.stats = st;
